@@ -174,10 +174,12 @@ def run(tier):
     recs, tail = HT.record()
     htr, skipped = HT.convert(recs)
     if not htr:
-        raise core.Machinery("no hook traces recorded from the repository's tests (SKMATTER_VERIF hooks missing?): " + tail)
-    hv, hstats = core.validate_cases("trace/TraceGreedy.tla", [strip(t) for t in htr])
-    rep.add_trace_stats("TraceGreedy[repository tests via SKMATTER_VERIF hooks]", hstats, len(htr))
-    core.judge(rep, htr, hv)
+        # a tree without the hook commit (or with renamed call sites): this channel is skipped, never an alarm
+        rep.cov["parts"]["TraceGreedy[repository tests via SKMATTER_VERIF hooks]"] = "skipped: no hook events were emitted"
+    else:
+        hv, hstats = core.validate_cases("trace/TraceGreedy.tla", [strip(t) for t in htr])
+        rep.add_trace_stats("TraceGreedy[repository tests via SKMATTER_VERIF hooks]", hstats, len(htr))
+        core.judge(rep, htr, hv)
     rep.cov["hook_events_recorded_from_repository_tests"] = len(recs)
     rep.cov["hook_traces_skipped_as_too_large"] = skipped
     by_cls = {}
@@ -199,5 +201,44 @@ def run(tier):
     return rep.finish()
 
 
+def reexecute(case):
+    """re-run the recorded call history of a C01 case against the current code -> fresh trace"""
+    from harness import selectors as H
+    name = case["cls"]
+    cls, axis, family, needs_y = H.CLASSES[name]
+    kw = dict(case["params"])
+    if isinstance(kw.get("initialize"), list):
+        kw["initialize"] = list(kw["initialize"])
+    X = np.asarray(case["X"], float) * case.get("scale", 1.0)
+    y = None if case["y"] is None else np.asarray(case["y"], float) * case.get("scale", 1.0)
+    obj = cls(**kw)
+    unit = case["unit"] / (case.get("scale", 1.0) ** 2) if case.get("scale", 1.0) != 1.0 else case["unit"]
+    rec = H.Recorder(obj, name, X, y, unit, case["tol"] == 0)
+    for e in case["events"]:
+        if e["a"] != "begin":
+            continue
+        nts = None if e["nts"][0] == "none" else (e["nts"][1] if e["nts"][0] == "int" else e["nts"][1] / e["nts"][2])
+        thr, ttype = None, "absolute"
+        if e["thr"][0] == "abs":
+            thr = (e["thr"][1], e["thr"][2] * case["unit"])
+        elif e["thr"][0] == "rel":
+            thr, ttype = (e["thr"][1], e["thr"][2]), "relative"
+        rec.fit(nts, warm=e["warm"], thr=thr, thr_type=ttype, with_y=y is not None, init=[i - 1 for i in e["init"]])
+    out = dict(case)
+    out["events"] = rec.events
+    return out
+
+
 def replay(path):
+    """--replay: re-execute the recorded history against the current tree (when the replay file holds the inputs),
+    then validate the fresh trace; otherwise re-validate the recording"""
+    with open(path) as fh:
+        rp = json.load(fh)
+    case = rp["case"]
+    if "cls" in case and "X" in case and case["cls"] in ("fFPS", "sFPS", "fPCovFPS", "sPCovFPS", "fCUR", "sCUR", "fPCovCUR", "sPCovCUR", "VoronoiFPS"):
+        fresh = reexecute(case)
+        v, _ = core.validate_cases("trace/TraceGreedy.tla", [strip(fresh)], chunks=1)
+        r = v[fresh["id"]]
+        print("replay %s: property=C01 re-executed %s%s; recorded clause=%s; verdict now=%s ctx=%s" % (path, case["cls"], case["params"], rp["clause"], r["v"], r.get("ctx")))
+        return 0 if r["v"][0] == "ok" else 1
     return core.replay_recorded(path, "trace/TraceGreedy.tla", strip)
